@@ -17,11 +17,12 @@
        mask = bit set of threads with an enabled step after the step (ParWork.enabled).
    workrand <n> <graph> <inits> <seed>      random complete schedule drawn from the model: sched=<...>
    workexplore <n> <graph> <inits> <max>    whole state space of the model (all threads, all choices):
-       safe_state, strict decrease of phi, deadlock-freedom, final states = everything reachable finished
+       safe_state, wakeup_ok (no lost wake-up, item by item), strict decrease of phi, deadlock-freedom, final states = everything reachable finished
    workcover <n> <graph> <inits> <max>      a set of complete schedules that together take EVERY transition of the
        model's reachable state graph at least once:  ok states=.. trans=.. complete=<bool> paths=<k> <sched>;<sched>;...
    cache <p|i> <progs> <fvals> <deps> <sched>
-       replays on ParCache.cstep.  deps = per key the keys f_k calls Do on (graph syntax), fvals: 0 = f returns nil.
+       replays on ParCache.cstep.  deps = per key the keys f_k calls Do on (graph syntax), fvals: 0 = f returns nil,
+       1 / 2 = f panics / calls runtime.Goexit instead of returning (op fx<k>: the thread is gone, its mutexes stay held).
        Mode p: the plain accesses to e.result are steps of their own (the instrumented copy makes them
        scheduling points); mode i: a thread runs through them after every scheduled step (fallback).  Answer
          ok <t>:<op>[+<op>...]/<mask>,... | idle=<bool> fb=<k:n.k:n> inv=ok|FAIL@<k>:<what>
@@ -89,7 +90,8 @@ let do_work n gs inits sched =
   let s = ref (init_state nn (nats inits)) in
   let evs = ref [] and inv = ref "ok" and bad = ref (-1) in
   let check k s =
-    if !inv = "ok" && not (safe_state nn s) then inv := Printf.sprintf "FAIL@%d:safe_state" k in
+    if !inv = "ok" && not (safe_state nn s) then inv := Printf.sprintf "FAIL@%d:safe_state" k;
+    if !inv = "ok" && not (wakeup_ok s) then inv := Printf.sprintf "FAIL@%d:wakeup_ok" k in
   check 0 !s;
   List.iteri (fun k (t, c) ->
     if !bad < 0 then
@@ -161,6 +163,7 @@ let do_workexplore n gs inits maxstates =
     incr states;
     if List.length path > !maxd then maxd := List.length path;
     if not (safe_state nn s) then fail := "safe_state " ^ show path;
+    if not (wakeup_ok s) then fail := "wakeup_ok " ^ show path;
     let succs = work_succs n ch s in
     if succs = [] then begin
       incr finals;
@@ -268,9 +271,14 @@ let call_of s = let k = nat_of_int (ios (String.sub s 1 (String.length s - 1))) 
   match s.[0] with 'D' -> CDo k | 'G' -> CGet k | _ -> failwith "bad call"
 let progs_of s : call list list =
   List.map (fun p -> List.map call_of (split_on '.' p)) (String.split_on_char '/' s)
-(* the value 0 stands for an f that returns nil *)
+(* the value 0 stands for an f that returns nil; the values 1 and 2 for an f that does not return at all
+   (1: it panics, 2: it calls runtime.Goexit -- the same outcome in the model): [crash] of ParCache.v *)
+let crash_ref : (nat -> bool) ref = ref (fun _ -> false)
+let has_crash = ref false
 let fval_of s : nat -> nat option =
   let a = Array.of_list (ints s) in
+  has_crash := Array.exists (fun v -> v = 1 || v = 2) a;
+  crash_ref := (fun k -> let k = int_of_nat k in k < Array.length a && (a.(k) = 1 || a.(k) = 2));
   fun k -> let k = int_of_nat k in
     let v = if k < Array.length a then a.(k) else 0 in
     if v = 0 then None else Some (nat_of_int v)
@@ -301,7 +309,7 @@ let levels (d : int list array) : (int -> int) option =
 let show_val = function None -> "nil" | Some v -> string_of_int (int_of_nat v)
 let cmask fv dp nthr (s : cstate) =
   let m = ref 0 in
-  for t = 0 to nthr - 1 do if cenabled fv dp s (nat_of_int t) then m := !m lor (1 lsl t) done; !m
+  for t = 0 to nthr - 1 do if cenabled fv dp !crash_ref s (nat_of_int t) then m := !m lor (1 lsl t) done; !m
 
 (* the op tokens of the step thread t takes from s to s' *)
 let cache_ops dp (s : cstate) (s' : cstate) (t : int) : string list =
@@ -322,7 +330,10 @@ let cache_ops dp (s : cstate) (s' : cstate) (t : int) : string list =
   | DLoad1 k | DLoad2 k -> [Printf.sprintf "al%d=%d" (i k) (i (s.ents k).done0)]
   | DLock k -> [Printf.sprintf "lk%d" (i k)]
   | DCall k -> [Printf.sprintf "fb%d" (i k)]
-  | DInF (k, _) -> (match th'.tpc with DWrite (_, _) -> [Printf.sprintf "fe%d" (i k)] | _ -> [Printf.sprintf "nd%d" (i k)])
+  | DInF (k, _) -> (match th'.tpc with
+                    | DWrite (_, _) -> [Printf.sprintf "fe%d" (i k)]
+                    | Idle -> [Printf.sprintf "fx%d" (i k)]   (* f does not return: the goroutine is gone *)
+                    | _ -> [Printf.sprintf "nd%d" (i k)])
   | DWrite (k, _) -> [Printf.sprintf "pw%d" (i k)]
   | DStore k -> [Printf.sprintf "as%d=%d" (i k) (i (s'.ents k).done0)]
   | DUnlock k -> [Printf.sprintf "ul%d" (i k)]
@@ -335,7 +346,7 @@ let is_plain_tok s = String.length s >= 2 && s.[0] = 'p' && (s.[1] = 'w' || s.[1
 
 (* one scheduled step of t; in mode i followed by its invisible (plain access) steps, whose pw/pr tokens are dropped *)
 let cache_macro visible fv dp (s : cstate) (t : int) : (cstate * string) option =
-  match cstep fv dp s (nat_of_int t) with
+  match cstep fv dp !crash_ref s (nat_of_int t) with
   | None -> None
   | Some s1 ->
       let ops = ref (cache_ops dp s s1 t) and cur = ref s1 in
@@ -344,7 +355,7 @@ let cache_macro visible fv dp (s : cstate) (t : int) : (cstate * string) option 
         while !continue do
           let th = List.nth !cur.thrs t in
           if invisible th.tpc then
-            (match cstep fv dp !cur (nat_of_int t) with
+            (match cstep fv dp !crash_ref !cur (nat_of_int t) with
              | Some s2 -> ops := !ops @ cache_ops dp !cur s2 t; cur := s2
              | None -> continue := false)
           else continue := false
@@ -362,7 +373,9 @@ let cache_check progs d (s : cstate) : string =
   let bad = ref "" in
   List.iter (fun k -> let e = s.ents (nat_of_int k) in
     if int_of_nat e.fbegins > 1 then bad := "f-twice";
-    if int_of_nat e.fends > int_of_nat e.fbegins then bad := "fends") (keys_of progs d);
+    if int_of_nat e.fends > int_of_nat e.fbegins then bad := "fends";
+    if int_of_nat e.orph > 0 && not (int_of_nat e.orph = 1 && int_of_nat e.fbegins = 1 && int_of_nat e.fends = 0
+                                     && e.locked && int_of_nat e.done0 = 0) then bad := "crashed-entry") (keys_of progs d);
   !bad
 
 let psi_of d : (cstate -> int) option =
@@ -408,7 +421,7 @@ let do_cacherand mode ps fvs ds seed =
   let s = ref (cinit progs) in
   let sch = ref [] and stop = ref false in
   while not !stop do
-    let en = List.filter (fun t -> cenabled fv dp !s (nat_of_int t)) (List.init nthr (fun t -> t)) in
+    let en = List.filter (fun t -> cenabled fv dp !crash_ref !s (nat_of_int t)) (List.init nthr (fun t -> t)) in
     match en with
     | [] -> stop := true
     | l -> let t = List.nth l (rng_int (List.length l)) in
@@ -423,7 +436,7 @@ let cstate_key progs d (s : cstate) : string =
                      List.map (fun k -> s.ents (nat_of_int k)) (keys_of progs d)) []
 
 let cache_succs fv dp nthr (s : cstate) =
-  List.filter_map (fun t -> match cstep fv dp s (nat_of_int t) with Some s' -> Some (t, s') | None -> None)
+  List.filter_map (fun t -> match cstep fv dp !crash_ref s (nat_of_int t) with Some s' -> Some (t, s') | None -> None)
     (List.init nthr (fun t -> t))
 
 let do_cacheexplore ps fvs ds maxstates =
@@ -465,7 +478,7 @@ let do_cacheexplore ps fvs ds maxstates =
       incr finals;
       if not (all_idle s) then begin
         incr deadlocks;
-        if psif <> None then fail := "deadlock " ^ show path
+        if psif <> None && not !has_crash then fail := "deadlock " ^ show path
       end
     end;
     List.iter (fun (t, s') ->
